@@ -59,6 +59,7 @@ def load_symbolic(extra=()):
     pj = sys.modules.get("physt.io.json")
     if pj is not None and not isinstance(pj.__dict__.get("json"), stubs.JsonStub):
         pj.__dict__["json"] = stubs.JsonStub()
+        pj.__dict__["open"] = stubs.MemoryFiles().open
     return sys.modules["physt"]
 
 
